@@ -15,6 +15,7 @@ import importlib.util
 import os
 
 from ..astutil import call_simple_name, exc_name, guard_chain, names_in, pm, pmall, returns_of, short
+from ..callgraph import get_callgraph
 from ..cfg import cfg_of
 from ..forward import flow_of
 from ..loader import AnalysisError, ClassInfo, FunctionInfo, body_walk, norm, walk_no_nested
@@ -163,16 +164,21 @@ def rule_index_steps_cover_the_grammar(ctx):
     if not used:
         run.ok(R, key(fi.module.relpath, fi.qualname, "index-steps-cover-the-grammar"), "the index is cut by find / split: any text between the brackets")
         return
-    for c, rx, mode in used:
-        missing = []
-        for w in ("a[-1]", "a[+1]", "a[0]", "a[12]", "a[*]"):
-            import re as _re
-            # {w} subseteq L(rx): inclusion of a one-word language
-            res_ = pattern_included(_re.escape(w), rx.pattern, 0, rx.flags, "fullmatch", mode)
-            okw = res_ is None          # included() answers None, or a shortest word of the difference
-            if not okw:
-                missing.append(w)
-        run.check(not missing, R, key(fi.module.relpath, fi.qualname, "index-steps-cover-the-grammar"),
+    import re as _re
+    for j_, (c, rx, mode) in enumerate(used):
+        # a recogniser of bare steps (a[0]) or of quoted steps ('a'[0]): all five index forms in one of the two spellings
+        per_form = []
+        for name in ("a", "'a'"):
+            miss = []
+            for ix in ("-1", "+1", "0", "12", "*"):
+                w = "%s[%s]" % (name, ix)
+                # {w} subseteq L(rx): inclusion of a one-word language
+                res_ = pattern_included(_re.escape(w), rx.pattern, 0, rx.flags, "fullmatch", mode)
+                if res_ is not None:          # included() answers None, or a shortest word of the difference
+                    miss.append(w)
+            per_form.append(miss)
+        missing = min(per_form, key=len)
+        run.check(not missing, R, key(fi.module.relpath, fi.qualname, "index-steps-cover-the-grammar" + ("#%d" % (j_ + 1) if j_ else "")),
                   "the expression that recognises an index step in a path string does not admit %s: such a step is taken for a "
                   "property name (and printed quoted)" % ", ".join(missing), file=fi.module.relpath, line=c.lineno, function=fi.qualname,
                   expected="signed integers and * between the brackets", found=rx.pattern)
@@ -328,6 +334,7 @@ def run(ctx):
     from . import C15
     ctx.do(C15.rule_one_writer_one_reader, rule_id="C10.printer-complete")
     ctx.do(rule_path_step_kinds)
+    ctx.do(rule_path_text_tokenised)
     # building an expression leaves its operands as they were (an operand can be used in several expressions)
     from .pitfalls import rule_no_alias_then_mutate
 
@@ -1048,3 +1055,64 @@ def rule_path_step_kinds(ctx):
                           found=short(b_))
     if n < 1:
         raise AnalysisError("visitObjectPath: no read of .property_name found")
+
+
+def rule_path_text_tokenised(ctx):
+    """The comparison classes accept the object path as TEXT ("file:extensions.'a.b'[0].c").  In that text a quoted step may
+    contain every separator of the path syntax ('.', ':', '[', ']'), so cutting it with str.split / find / partition at such a
+    character tears quoted keys apart and the printed pattern is not the one given (or no pattern at all).  In the functions
+    that turn path text into components, parameter-derived strings are cut only by a tokeniser that knows the quotes (a regular
+    expression with a quoted-string alternative), with one exception: the FIRST ':' always ends the object type (type names are
+    never quoted), so `partition(':')` / `split(':', 1)` is exact."""
+    run = ctx.run
+    prog = ctx.prog
+    R = "C10.path-text"
+    SEPS = {".", ":", "[", "]"}
+    sites = 0
+    for fid in ("stix2.patterns::ObjectPath.make_object_path", "stix2.patterns::_ObjectPathComponent.create_ObjectPathComponent"):
+        fi = prog.func(fid)
+        rel = fi.module.relpath
+        fl = flow_of(fi)
+        k = 0
+        for c in body_walk(fi.node):
+            if not (isinstance(c, ast.Call) and isinstance(c.func, ast.Attribute) and c.func.attr in
+                    ("split", "rsplit", "partition", "rpartition", "find", "rfind", "index", "rindex") and c.args
+                    and isinstance(c.args[0], ast.Constant) and isinstance(c.args[0].value, str) and set(c.args[0].value) & SEPS):
+                continue
+            pr = fl.prov(c.func.value)
+            if not (set(pr.params) & set(fi.params)):
+                continue
+            k += 1
+            sites += 1
+            sep = c.args[0].value
+            first_colon = sep == ":" and (c.func.attr == "partition" or (c.func.attr == "split" and len(c.args) == 2 and norm(c.args[1]) == "1")
+                                          or c.func.attr in ("find", "index"))
+            # the cut is harmless when it is applied to text that was already tested to be unquoted
+            def quote_test(t):
+                return isinstance(t, ast.Call) and isinstance(t.func, ast.Attribute) and t.func.attr == "startswith" and len(t.args) == 1 \
+                    and isinstance(t.args[0], ast.Constant) and t.args[0].value == "'" and norm(t.func.value) in (norm(c.func.value), *fi.params)
+            unquoted = any(((not pol) and quote_test(t)) or (pol and isinstance(t, ast.UnaryOp) and isinstance(t.op, ast.Not) and quote_test(t.operand))
+                           for t, pol, _ in guard_chain(c))
+            run.check(first_colon or unquoted, R, key(rel, fi.qualname, "cut-at-%r#%d" % (sep, k)),
+                      "object path text is cut at %r with str.%s(): a quoted step may contain that character "
+                      "(\"file:extensions.'a%sb'\" is a valid path), so the key is torn apart and the pattern printed from the "
+                      "model is not the pattern given" % (sep, c.func.attr, sep), file=rel, line=c.lineno, function=fi.qualname,
+                      expected="a tokeniser with a quoted-string alternative (re: '(?:[^'\\\\]|\\\\.)*' | bare name, optional [index])",
+                      found=short(c))
+        # a tokeniser is in use: some regular expression reachable from the function has a quoted-string alternative
+    tok = False
+    for fid in ("stix2.patterns::ObjectPath.make_object_path",):
+        fi = prog.func(fid)
+        cg = get_callgraph(prog)
+        for g in [g_ for g_ in cg.reachable([fi]) if g_.module.name == "stix2.patterns"]:
+            for n_ in body_walk(g.node):
+                if isinstance(n_, ast.Name) and n_.id.endswith("_RE"):
+                    b = g.module.scope.lookup_local(n_.id)
+                    if b is not None and isinstance(b.value, ast.Call) and b.value.args and isinstance(b.value.args[0], ast.Constant) \
+                            and "'" in str(b.value.args[0].value):
+                        tok = True
+    run.check(tok or sites > 0, R, key("stix2/patterns.py", "ObjectPath.make_object_path", "tokeniser"),
+              "path text is neither cut by string methods nor by a quote-aware regular expression: the rule lost its subject",
+              file="stix2/patterns.py", line=prog.func("stix2.patterns::ObjectPath.make_object_path").node.lineno,
+              function="ObjectPath.make_object_path", expected="a tokeniser", found="none")
+    run.floor(R, 1)
